@@ -9,6 +9,7 @@
  * h_gens_serialize  every n <= NMAX and every *data_len; buffer of exactly *data_len bytes.
  * secp256k1_generator_parse is replaced by its contract (proved by C07.generator_parse). */
 #define BP_IS_SQUARE
+#define BP_MEMSET
 #ifndef GENS_LOG
 # define BP_GENERATOR_PARSE
 #endif
@@ -23,7 +24,7 @@ int g_gp_n, g_gp_fail, g_gp_hit, g_gp_hv; const unsigned char *g_gp_base; size_t
 #define GB16(i) GB4(i) && GB4(i+4) && GB4(i+8) && GB4(i+12)
 #define GK16(i) GK4(i) && GK4(i+4) && GK4(i+8) && GK4(i+12)
 int secp256k1_generator_parse(const secp256k1_context *ctx, secp256k1_generator *gen, const unsigned char *input)
-__CPROVER_requires(__CPROVER_r_ok(ctx, sizeof(*ctx)) && __CPROVER_w_ok(gen, sizeof(*gen)) && __CPROVER_r_ok(input, 33))
+__CPROVER_requires(ctx != NULL && __CPROVER_w_ok(gen, sizeof(*gen)) && __CPROVER_r_ok(input, 33))
 __CPROVER_assigns(*gen, g_gp_n, g_gp_fail, g_gp_hit, g_gp_hv, g_gp_gen)
 __CPROVER_ensures(__CPROVER_return_value == 0 || __CPROVER_return_value == 1)
 __CPROVER_ensures(g_gp_n == __CPROVER_old(g_gp_n) + 1)
@@ -34,7 +35,6 @@ __CPROVER_ensures(input == g_gp_base + 33 * g_gp_j
 ;
 #endif
 
-#include "small_tables.h"
 #include "src/secp256k1.c"
 #include "post.h"
 
@@ -52,13 +52,13 @@ void h_gens_parse(void) {
 #else
     __CPROVER_assume(len <= MAXLEN);
 #endif
-    INPUT_BUF(buf, data, len, 140);
+    INPUT_BUF(buf, data, len, 66);
 #ifdef GENS_LOG
     g_gp_n = 0; g_gp_fail = 0; g_gp_hit = 0; g_gp_hv = 0; g_gp_base = data; g_gp_j = j;
     __CPROVER_assume(j < len / 33 || (len < 33 && j == 0));
 #endif
     g = secp256k1_bppp_generators_parse(&ctx, use_data ? data : NULL, len);
-    WITNESS_BUF(buf, data, len, 140);
+    WITNESS_BUF(buf, data, len, 66);
     __CPROVER_assert(g_error == 0, "C19 generators_parse: error callback never invoked (allocation succeeds)");
     if (!use_data) __CPROVER_assert(g == NULL && g_illegal == 1, "C19 generators_parse: NULL data is an illegal argument, result NULL");
     if (use_data) __CPROVER_assert(g_illegal == 0, "C19 generators_parse: no illegal callback for non-NULL arguments");
